@@ -7,9 +7,13 @@
    range); 3 the concrete syntax, a legal spelling of the abstract command
    list, is not lexed back to it by the (ported) scanner; 4 implementation
    panicked / died / hung where the model terminates normally; 5 accept/reject
-   differs on a legal input; 6 viewBox transform differs. *)
-From Verif Require Export Base.F32 Base.GoSem Geom.Matrix Geom.SvgPath Geom.Shapes Geom.UseGraph.
-From Coq Require Import QArith List NArith ZArith Bool String Ascii.
+   differs on a legal input; 6 viewBox transform differs; 7 the cubics emitted
+   for an arc do not lie on the ellipse SVG defines for it (Geom/SvgArcSpec.v:
+   F.6.5 / F.6.6) or do not run from the start to the end point in the
+   direction of the sweep flag; 8 the harness' cos / sin oracle for an arc's
+   x-axis-rotation is missing or is not the cosine / sine of that angle. *)
+From Verif Require Export Base.F32 Base.GoSem Geom.Matrix Geom.SvgPath Geom.Shapes Geom.SvgUnits Geom.UseGraph Geom.SvgArcSpec.
+From Coq Require Import QArith Qabs Qround List NArith ZArith Bool String Ascii.
 Import ListNotations.
 Open Scope Q_scope.
 
@@ -30,12 +34,18 @@ Inductive aseg := ASeg (letter : N) (args : list Q).
 (* what Draw did on a document: status 0 ok, 1 parse error, 2 panic, 3 fatal (process died), 4 hang *)
 Inductive dres := DRes (status : N) (l : list iop).
 
+(* oracle: cos / sin of an arc's x-axis-rotation `rot` (degrees, the binary32
+   value), as computed by the harness with Go's math.Cos / math.Sin of
+   float64(rot) * math.Pi / 180 (the expression of elements_path.go:431).
+   Checked below against Taylor polynomials (`trig_ok`). *)
+Inductive tent := TEnt (rot c s : Q).
+
 Inductive case :=
-| CPath (cmds : list aseg) (d : list N) (r : ires)
+| CPath (cmds : list aseg) (d : list N) (tr : list tent) (r : ires)
 | CBad (d : list N) (r : ires)
 | CPoints (arc : bool) (inrange : bool) (nums : list Q) (d : list N) (ok : bool) (out : list Q)
 | CViewbox (p : par) (w h vx vy vw vh : Q) (o1 o2 o3 o4 : Q)
-| CShapes (shs : list shape) (r : dres)
+| CShapes (fs : ouval) (vw vh : Q) (shs : list ushape) (tr : list tent) (r : dres)
 | CUse (g : graph) (root : list item) (r : dres)
 | CRefs (r : dres).
 
@@ -79,25 +89,249 @@ Definition pat_match (p : pat) (i : iop) : bool :=
                      (k =? 4)%N && qeqb x a && qeqb y b && qeqb w c && qeqb h d
   end.
 
+(* ------------------------------------------------------------------ *)
+(* arcs: the run of cubics emitted for one OArc against Geom/SvgArcSpec.v *)
+
+(* cos / sin of `deg` degrees by exact range reduction (deg mod 360, in Q) and
+   the Taylor polynomials of degree 40 in fixed point (scale 2^80); |x| <= pi:
+   the remainder pi^41/41! and the accumulated truncations are below 2^-70.
+   (That these polynomials approximate the real cosine / sine is not proved in
+   Coq; they only replace trust in the harness' oracle.) *)
+Definition fx : Z := (2 ^ 80)%Z.
+Definition pi_q : Q := 3141592653589793238462643383279502884197 # 1000000000000000000000000000000000000000.
+
+Fixpoint taylor (fuel : nat) (i : Z) (term x cs sn : Z) : Z * Z :=
+  match fuel with
+  | O => (cs, sn)
+  | S f =>
+      let m := (i mod 4)%Z in
+      let cs' := if (m =? 0)%Z then (cs + term)%Z else if (m =? 2)%Z then (cs - term)%Z else cs in
+      let sn' := if (m =? 1)%Z then (sn + term)%Z else if (m =? 3)%Z then (sn - term)%Z else sn in
+      taylor f (i + 1)%Z (Z.shiftr (term * x) 80 / (i + 1))%Z x cs' sn'
+  end.
+
+Definition cos_sin_deg (deg : Q) : Q * Q :=
+  let a := deg - 360 * inject_Z (Qfloor (deg / 360)) in          (* in [0, 360) *)
+  let r := if Qle_bool 180 a then a - 360 else a in               (* in [-180, 180) *)
+  let x := Qfloor (r * pi_q / 180 * inject_Z fx) in
+  let '(cs, sn) := taylor 42 0 fx x 0%Z 0%Z in
+  (Qmake cs (Z.to_pos fx), Qmake sn (Z.to_pos fx)).
+
+Definition two_m (n : positive) : Q := Qmake 1 (2 ^ n)%positive.       (* 2^-n *)
+
+(* float64(rot) * math.Pi / 180 carries a relative error of about 2^-52: for
+   |rot| < 2^25 degrees the angle is off by less than 2^-32 *)
+Definition trig_ok (rot c s : Q) : bool :=
+  let '(cs, sn) := cos_sin_deg rot in
+  Qle_bool (Qabs (c - cs)) (two_m 30) && Qle_bool (Qabs (s - sn)) (two_m 30).
+
+Fixpoint trig_lookup (tr : list tent) (rot : Q) : option (Q * Q) :=
+  match tr with
+  | [] => None
+  | TEnt r c s :: rest => if Qeq_bool r rot then Some (c, s) else trig_lookup rest rot
+  end.
+
+(* floor square root to 2^-60 *)
+Definition qsqrt (x : Q) : Q :=
+  if Qle_bool x 0 then 0
+  else Qmake (Z.sqrt (Qnum x * 2 ^ 120 / Zpos (Qden x))) (2 ^ 60)%positive.
+
+(* fixed point: floor (q 2^40) and back *)
+Definition fx40 (q : Q) : Z := Qfloor (q * 1099511627776).
+Definition of40 (z : Z) : Q := Qmake z 1099511627776.
+Definition r40 (q : Q) : Q := of40 (fx40 q).
+
+(* sample points of a run of cubics starting at (x0, y0), in fixed point: for
+   every cubic its point of parameter 1/2, (P0 + 3 C1 + 3 C2 + P3) / 8, and its
+   end point *)
+Fixpoint run_samples (x0 y0 : Z) (run : list iop) : list (Z * Z) :=
+  match run with
+  | [] => []
+  | IOp _ a b c d e f :: r =>
+      let ez := fx40 e in
+      let fz := fx40 f in
+      (Z.shiftr (x0 + 3 * fx40 a + 3 * fx40 c + ez) 3, Z.shiftr (y0 + 3 * fx40 b + 3 * fx40 d + fz) 3)%Z
+      :: (ez, fz) :: run_samples ez fz r
+  end.
+
+Definition Qmax (a b : Q) : Q := if Qle_bool a b then b else a.
+Definition Qmin (a b : Q) : Q := if Qle_bool a b then a else b.
+
+(* Tolerances.  The emitted coordinates are binary32 roundings (2^-24
+   relative) of points computed in float64 about a centre rounded to binary32.
+   An arc is "well conditioned" when the magnitude of its coordinates (end
+   points, centre) is at most 2^8 times its smaller effective radius and
+   Lambda >= 2^-20 (the chord is not below 2^-10 of the diameter: k <= 2^10; and
+   the radii are not below 2^-20, the fixed point evaluation has 40 bits): a
+   coordinate error is then below 2^-14 in normalised (unit circle)
+   coordinates and the squared normalised radius `arc_dev` of a point of the
+   ellipse is within 2^-12 of 1.  A cubic spanning at most a quarter turn stays
+   within 2^-11 of the arc it approximates.  arc_tol = 2^-10 covers both.
+   Arcs that are not well conditioned are only checked for their end point. *)
+Definition arc_tol : Q := two_m 10.
+Definition nrm_err : Q := two_m 14.
+
+Record arc_geo := mkgeo {
+  g_lambda : Q; g_well : bool;
+  g_devs : list Q;        (* arc_dev of the samples *)
+  g_order : bool          (* samples in cyclic order from start to end in the sweep direction *)
+}.
+
+(* start, the samples and the end point, normalised, must be met in this order
+   when going round in the sweep direction without passing the end point:
+   SvgArcSpec.orient (S_(j-1), S_j, S_last) has the sign of the direction (up to
+   the coordinate noise) *)
+(* on fixed-point coordinates (scale 2^40); noise: bound of the coordinate
+   error in the same units *)
+Fixpoint order_ok (dir noise : Z) (last : Z * Z) (l : list (Z * Z)) : bool :=
+  match l with
+  | p :: r =>
+      match r with
+      | q :: (_ :: _) =>
+          let o := ((fst q - fst p) * (snd last - snd p) - (snd q - snd p) * (fst last - fst p))%Z in
+          let len := (Z.abs (fst q - fst p) + Z.abs (snd q - snd p) + Z.abs (fst last - fst p) + Z.abs (snd last - snd p))%Z in
+          if (- (noise * len) <=? dir * o)%Z then order_ok dir noise last r else false
+      | _ => true
+      end
+  | [] => true
+  end.
+
+(* arc_dev (= dev_of lambda p q (nu P) (nv P) with (p, q) = sigma k (b1, -a1),
+   Geom/SvgArcSpec.v) on every sample, in fixed point with scale 2^40 (Q
+   arithmetic never reduces fractions): cos / sin, Lambda, the normalised
+   centre and the normalised samples are rounded to multiples of 2^-40; the
+   normalisation, which is affine (SvgArcProofs.nrm_affine: nrm_u c s rx mx my
+   px py = (c/rx) px + (s/rx) py - (c mx + s my)/rx), has its coefficients
+   rounded to 2^-64; dev_of on arguments z / 2^40 is computed by the integer
+   formulas of SvgArcProofs.dev_of_fixed / dev_of_fixed_big.  For a well
+   conditioned arc (Lambda >= 2^-20, k <= 2^10) of coordinates below 2^20 the
+   value moves by less than 2^-16, far inside arc_tol. *)
+Definition d40 : positive := 1099511627776.
+Definition arc_geometry (c0 s0 : Q) (x0 y0 rx0 ry0 large sweep x y : Q) (run : list iop) : arc_geo :=
+  let c := r40 c0 in
+  let s := r40 s0 in
+  let rx := arc_abs rx0 in
+  let ry := arc_abs ry0 in
+  let fa := negb (Qeq_bool large 0) in
+  let fs := negb (Qeq_bool sweep 0) in
+  let lam := r40 (lambda x0 y0 rx ry c s x y) in
+  let big := if Qlt_le_dec 1 lam then true else false in
+  let sc := if big then qsqrt lam else 1 in
+  let rxe := rx * sc in
+  let rye := ry * sc in
+  let mag := Qmax (Qmax (Qabs x0) (Qabs y0)) (Qmax (Qabs x) (Qabs y)) + Qmax rxe rye in
+  let well := Qle_bool mag (256 * Qmin rxe rye) && Qle_bool (two_m 20) lam && Qle_bool (two_m 20) (Qmin rxe rye) in
+  let k := if big then 0 else qsqrt ((1 - lam) / lam) in
+  let sg := sigma fa fs in
+  let p := fx40 (sg * k * b1 x0 y0 ry c s x y) in
+  let q := fx40 (- (sg * k * a1 x0 y0 rx c s x y)) in
+  let mx := mid_x x0 x in
+  let my := mid_y y0 y in
+  let s64 := 18446744073709551616 in
+  let au := Qfloor (c / rx * s64) in
+  let bu := Qfloor (s / rx * s64) in
+  let cu := fx40 (- ((c * mx + s * my) / rx)) in
+  let av := Qfloor (- s / ry * s64) in
+  let bv := Qfloor (c / ry * s64) in
+  let cv := fx40 (- ((- s * mx + c * my) / ry)) in
+  let nrm := fun pt : Z * Z =>
+    let '(px, py) := pt in
+    ((Z.shiftr (au * px + bu * py) 64 + cu)%Z, (Z.shiftr (av * px + bv * py) 64 + cv)%Z) in
+  let x0z := fx40 x0 in
+  let y0z := fx40 y0 in
+  let npts := map nrm ((x0z, y0z) :: run_samples x0z y0z run) in
+  let dev := fun n : Z * Z =>
+    let '(u, v) := n in
+    if big then Qmake (u * u + v * v) (d40 * d40) / lam
+    else Qmake ((u - p) * (u - p) + (v - q) * (v - q)) (d40 * d40) in
+  mkgeo lam well (map dev (tl npts))
+        (order_ok (if fs then 1 else -1)%Z (fx40 (4 * nrm_err * sc)) (last npts (0, 0)%Z) npts).
+
+Definition geo_ok (g : arc_geo) : bool :=
+  negb (g_well g) || (forallb (fun d => Qle_bool (Qabs (d - 1)) arc_tol) (g_devs g) && g_order g).
+
+(* geo = None: end point only *)
+Definition arc_run_ok (geo : option (list tent)) (x0 y0 rx ry rot large sweep x y : Q) (run : list iop) : bool :=
+  match geo with
+  | None => true
+  | Some tr =>
+      match trig_lookup tr rot with
+      | None => false
+      | Some (c, s) => geo_ok (arc_geometry c s x0 y0 rx ry large sweep x y run)
+      end
+  end.
+
 (* OArc matches a non-empty run of cubics whose last one ends exactly at the
-   arc's end point (all splits are tried) *)
-Fixpoint match_pats (ms : list pat) (is : list iop) {struct ms} : bool :=
+   arc's end point and which, with geo = Some oracle, lies on the arc's ellipse
+   (all splits are tried) *)
+Fixpoint match_pats (geo : option (list tent)) (ms : list pat) (is : list iop) {struct ms} : bool :=
   match ms with
   | [] => match is with [] => true | _ => false end
-  | PExact (OArc _ _ _ _ _ _ _ x y) :: mr | PLoose (OArc _ _ _ _ _ _ _ x y) :: mr =>
-      (fix arc (is : list iop) : bool :=
+  | PExact (OArc x0 y0 rx ry rot la sw x y) :: mr | PLoose (OArc x0 y0 rx ry rot la sw x y) :: mr =>
+      (fix arc (acc : list iop) (is : list iop) : bool :=
          match is with
          | [] => false
          | i :: ir =>
              (* `if` rather than && / ||: vm_compute is call-by-value *)
              if is_cubic i then
-               (if is_cubic_to i x y then (if match_pats mr ir then true else arc ir) else arc ir)
+               (if is_cubic_to i x y then
+                  (if arc_run_ok geo x0 y0 rx ry rot la sw x y (rev (i :: acc)) then
+                     (if match_pats geo mr ir then true else arc (i :: acc) ir)
+                   else arc (i :: acc) ir)
+                else arc (i :: acc) ir)
              else false
-         end) is
+         end) [] is
   | m :: mr => match is with
-               | i :: ir => if pat_match m i then match_pats mr ir else false
+               | i :: ir => if pat_match m i then match_pats geo mr ir else false
                | [] => false
                end
+  end.
+
+Definition pat_arc (p : pat) : option op :=
+  match p with
+  | PExact (OArc a b c d e f g h i) | PLoose (OArc a b c d e f g h i) => Some (OArc a b c d e f g h i)
+  | _ => None
+  end.
+
+(* every arc's rotation has an oracle entry that passes trig_ok *)
+Definition oracle_ok (tr : list tent) (ms : list pat) : bool :=
+  forallb (fun p => match pat_arc p with
+                    | Some (OArc _ _ _ _ rot _ _ _ _) =>
+                        match trig_lookup tr rot with Some (c, s) => trig_ok rot c s | None => false end
+                    | _ => true
+                    end) ms.
+
+(* 0 agree; 1 op lists differ; 7 arcs off their ellipse; 8 oracle *)
+Definition match_code (tr : list tent) (ms : list pat) (is : list iop) : N :=
+  if negb (match_pats None ms is) then 1%N
+  else if negb (existsb (fun p => match pat_arc p with Some _ => true | None => false end) ms) then 0%N
+  else if negb (oracle_ok tr ms) then 8%N
+  else if match_pats (Some tr) ms is then 0%N else 7%N.
+
+(* for replay files: the geometry of every arc, the implementation's ops being
+   cut at the first cubic that ends at the arc's end point *)
+Fixpoint take_arc (x y : Q) (is : list iop) : list iop * list iop :=
+  match is with
+  | [] => ([], [])
+  | i :: r => if is_cubic i then
+                (if is_cubic_to i x y then ([i], r) else let '(a, b) := take_arc x y r in (i :: a, b))
+              else ([], is)
+  end.
+Definition approx (q : Q) : Q := Qred (Qmake (Qfloor (q * 1048576)) 1048576).
+Fixpoint arc_diags (tr : list tent) (ms : list pat) (is : list iop) : list arc_geo :=
+  match ms with
+  | [] => []
+  | p :: mr =>
+      match pat_arc p with
+      | Some (OArc x0 y0 rx ry rot la sw x y) =>
+          let '(run, rest) := take_arc x y is in
+          match trig_lookup tr rot with
+          | Some (c, s) => let g := arc_geometry c s x0 y0 rx ry la sw x y run in
+                           mkgeo (approx (g_lambda g)) (g_well g) (map approx (g_devs g)) (g_order g) :: arc_diags tr mr rest
+          | None => arc_diags tr mr rest
+          end
+      | _ => arc_diags tr mr (tl is)
+      end
   end.
 
 Definition op_vals (m : op) : list Q :=
@@ -118,14 +352,14 @@ Fixpoint segs_eqb (l1 : list aseg) (l2 : list (N * list Q)) : bool :=
   | _, _ => false
   end.
 
-Definition check_path (cmds : list aseg) (d : list N) (r : ires) : N :=
+Definition check_path (cmds : list aseg) (d : list N) (tr : list tent) (r : ires) : N :=
   match lex_path cv_f32 d with
   | Ok (Some segs) =>
       if negb (segs_eqb cmds segs) then 3%N else
       match pf d, r with
       | Ok (Some ms), IOk is =>
           if negb (ops_in_range ms) then 2%N
-          else if match_pats (map PExact ms) is then 0%N else 1%N
+          else match_code tr (map PExact ms) is
       | Ok (Some _), IErr => 5%N
       | Ok None, IErr => 0%N
       | Ok None, IOk _ => 5%N
@@ -182,14 +416,22 @@ Fixpoint shapes_ops (shs : list shape) : res (option (list shape_op)) :=
               end
   end.
 
-Definition check_shapes (shs : list shape) (r : dres) : N :=
+(* the drawing context of the root's children: font-size of the root <svg>
+   (default 1em of the initial 16px: svg.go:107, tree.go:220-226), viewport size
+   in user units (the viewBox's, else the concrete one: svg.go:99-105) *)
+Definition root_dims (fs : ouval) (vw vh : Q) : sdims :=
+  mkdims (match fs with NoUV => 16 | SomeUV x => resolve_len f32 rnd32 x 16 16 end) vw vh.
+Definition ushapes_ops (fs : ouval) (vw vh : Q) (shs : list ushape) : res (option (list shape_op)) :=
+  shapes_ops (map (resolve_shape f32 rnd32 (root_dims fs vw vh)) shs).
+
+Definition check_shapes (fs : ouval) (vw vh : Q) (ushs : list ushape) (tr : list tent) (r : dres) : N :=
   let '(DRes st is) := r in
   if (2 <=? st)%N then 4%N else
-  match shapes_ops shs with
+  match ushapes_ops fs vw vh ushs with
   | Ok (Some ms) =>
       if (st =? 1)%N then 5%N
       else if negb (forallb (fun m => forallb in_range32 (shape_op_vals m)) ms) then 2%N
-      else if match_pats (map pat_of ms) is then 0%N else 1%N
+      else match_code tr (map pat_of ms) is
   | Ok None => if (st =? 1)%N then 0%N else 5%N
   | _ => 1%N
   end.
@@ -221,32 +463,42 @@ Definition check_refs (r : dres) : N :=
 
 Definition check (c : case) : N :=
   match c with
-  | CPath cmds d r => check_path cmds d r
+  | CPath cmds d tr r => check_path cmds d tr r
   | CBad d r => check_bad d r
   | CPoints arc inrange nums d ok out => check_points arc inrange nums d ok out
   | CViewbox p w h vx vy vw vh o1 o2 o3 o4 => check_viewbox p w h vx vy vw vh o1 o2 o3 o4
-  | CShapes shs r => check_shapes shs r
+  | CShapes fs vw vh shs tr r => check_shapes fs vw vh shs tr r
   | CUse g root r => check_use g root r
   | CRefs r => check_refs r
   end.
 
 (* model observable, for replay files *)
 Inductive mout :=
-| MPath (lexed : res (option (list (N * list Q)))) (ops : res (option (list op)))
+| MPath (lexed : res (option (list (N * list Q)))) (ops : res (option (list op))) (arcs : list arc_geo)
 | MPoints (r : res (option (list Q)))
 | MViewbox (a b c d : Q)
-| MShapes (l : res (option (list shape_op)))
+| MShapes (l : res (option (list shape_op))) (arcs : list arc_geo)
 | MUse (r : res (option (list N)))
 | MNone.
 
 Definition model_out (c : case) : mout :=
   match c with
-  | CPath _ d _ => MPath (lex_path cv_f32 d) (pf d)
-  | CBad d _ => MPath (lex_path cv_f32 d) (pf d)
+  | CPath _ d tr r =>
+      MPath (lex_path cv_f32 d) (pf d)
+            match pf d, r with
+            | Ok (Some ms), IOk is => arc_diags tr (map PExact ms) is
+            | _, _ => []
+            end
+  | CBad d _ => MPath (lex_path cv_f32 d) (pf d) []
   | CPoints arc _ _ d _ _ => MPoints (parse_points cv_f32 arc d)
   | CViewbox p w h vx vy vw vh _ _ _ _ =>
       let '(a, b, c, d) := viewbox_transform f32 p w h vx vy vw vh in MViewbox a b c d
-  | CShapes shs _ => MShapes (shapes_ops shs)
+  | CShapes fs vw vh shs tr (DRes _ is) =>
+      MShapes (ushapes_ops fs vw vh shs)
+              match ushapes_ops fs vw vh shs with
+              | Ok (Some ms) => arc_diags tr (map pat_of ms) is
+              | _ => []
+              end
   | CUse g root _ => MUse (document g root)
   | CRefs _ => MNone
   end.
